@@ -52,6 +52,8 @@ def run(chk, tier):
     plans = [
         ("map", ["n1", "slu", "z"], ["v1", "v2"], 2, 3),
         ("set", ["nan", "sl", "s1"], ["v"], 2, 3),
+        # keys sharing a hash bucket (the integer 1 and the float with bit pattern 1; 2 likewise): collision chains
+        ("map", ["n1", "c3", "n2", "c2"], ["v1"], 1, 3),
     ]
     if thorough:
         plans = [
@@ -60,6 +62,8 @@ def run(chk, tier):
             ("set", ["nan", "sl", "o1"], ["v"], 2, 4),
             ("map", ["su", "y1", "big"], ["v1", "v2"], 3, 3),
             ("set", ["slu", "s1", "u"], ["v"], 2, 3),
+            ("set", ["n1", "c3", "n2", "c2"], ["v"], 2, 3),
+            ("map", ["n1", "c3", "z"], ["v1", "v2"], 2, 3),
         ]
     traces = 0
     for n, (inst, keys, vals, niter, maxlen) in enumerate(plans):
